@@ -85,7 +85,8 @@ class C02(PropCheck):
             'from the batch generator), run with one seed, the second run after reseeding/consuming np.random and unrelated '
             'generate calls; plus numeric twins of the same graphs compared bit for bit (tobytes) between repeated runs, insertion '
             'orders, native vs multiprocessing client, BatchHandler histories sharing one context vs fresh contexts, and repeated '
-            'seeded Rejection runs; non-trivial = at least two stochastic operations ran; distinct by (spec, order2, outputs, seed)')
+            'seeded Rejection runs; boundary seeds 0, 1, 2^31-1, 2^32-1 in 30% of the cases; every third case a seeded Rejection and a 3-population SMC run on '
+            'the native client vs a scripted client keeping 2-5 batches in flight (scripted is_ready answers, lazy/eager/shuffled execution); non-trivial = at least two stochastic operations ran; distinct by (spec, order2, outputs, seed)')
     trusted = ('numpy RandomState(seed) is a pure function of the seed; multiprocessing transport (pickle) is the identity on nets (sampled with 2 workers)',)
 
     def generate(self):
@@ -99,7 +100,11 @@ class C02(PropCheck):
             outputs = r.choice([None, r.sample(names, r.randint(1, len(names)))])
             self.bump('n_nodes=%d' % len(spec))
             self.bump('reordered=%s' % (order2 != names))
-            yield dict(spec=spec, order2=order2, outputs=outputs, seed=r.randrange(2 ** 31), batch_size=r.choice([1, 2, 5]),
+            seed = r.choice([0, 0, 1, 2 ** 31 - 1, 2 ** 32 - 1]) if r.random() < 0.3 else r.randrange(2 ** 31)
+            self.bump('seed=%s' % ('boundary' if seed in (0, 1, 2 ** 31 - 1, 2 ** 32 - 1) else 'random'))
+            yield dict(spec=spec, order2=order2, outputs=outputs, seed=seed, batch_size=r.choice([1, 2, 5]),
+                       oracle=[r.random() < 0.45 for _ in range(r.randint(0, 60))], maxp=r.randint(2, 5),
+                       client_mode=r.choice(['lazy', 'lazy', 'eager', 'shuffle']), samplers=(i % 3 == 0),
                        noise=r.randrange(2 ** 31), batch_indices=[r.randrange(0, 6) for _ in range(r.randint(2, 5))],
                        numeric=(i % 2 == 0), rejection=(i % 7 == 0), mp=(i % 5 == 0))
 
@@ -167,6 +172,8 @@ class C02(PropCheck):
                    coq=dict(src1=snet_of_model(m1), src2=snet_of_model(m2), impl1=c1, impl2=c2,
                             outputs=clist([cstr(x) for x in (all_names if outputs is None else outputs)])),
                    numeric=None)
+        if case.get('samplers'):
+            out['samplers'] = self._samplers(case)
         if case['numeric']:
             out['numeric'] = self._numeric(case)
             self.bump('numeric=' + ('skipped' if 'skipped' in out['numeric'] else 'ran'))
@@ -197,7 +204,7 @@ class C02(PropCheck):
         mb = build_numeric(spec, order=case['order2'])
         if blob(mb.generate(bs, outputs, seed=seed)) != ref:
             problems.append('other insertion order differs')
-        if blob(ma.generate(bs, outputs, seed=seed + 1)) == ref and any(s['kind'] in ('prior', 'sim') for s in spec) and ref:
+        if blob(ma.generate(bs, outputs, seed=(seed + 1) % 2 ** 32)) == ref and any(s['kind'] in ('prior', 'sim') for s in spec) and ref:
             stoch_out = [s['name'] for s in spec if s['kind'] in ('prior', 'sim')]
             if outputs is None or set(outputs) & set(stoch_out):
                 problems.append('different seed gave identical stochastic outputs (seed ignored?)')
@@ -255,8 +262,57 @@ class C02(PropCheck):
             self.bump('rejection_skipped')
         return problems
 
+    def _samplers(self, case):
+        """seeded Rejection / SMC on the native client vs a scripted client that keeps several batches in flight,
+        answers is_ready as scripted and executes tasks late / early / in shuffled order: bit-identical results"""
+        import elfi
+        import elfi.clients.native as native
+        import rejmodels
+        from sclient import ScriptedClient
+        problems = []
+        r = random.Random(case['noise'])
+        cfg = dict(n_params=r.randint(1, 2), levels=r.choice([3, 4, 8, 1000]), width=r.choice([1, 2]), cut=None, inf_above=None)
+        seed, b = case['seed'], r.choice([1, 2, 3, 5])
+        n = r.choice([3, 5, 8])
+
+        def run(kind, client, maxp):
+            elfi.set_client(client)
+            m = rejmodels.build(cfg)
+            if kind == 'rej':
+                inf = elfi.Rejection(m['d'], batch_size=b, seed=seed, output_names=['s1'], max_parallel_batches=maxp)
+                s = inf.sample(n, quantile=0.34, bar=False)
+                return (blob(s.outputs), float(s.threshold), int(s.n_sim))
+            inf = elfi.SMC(m['d'], batch_size=b, seed=seed, output_names=['s1'], max_parallel_batches=maxp)
+            s = inf.sample(n, quantiles=[0.5, 0.5, 0.5], bar=False)
+            return tuple((blob(p.outputs), float(p.threshold), int(p.n_sim), np.asarray(p.weights).tobytes().hex())
+                         for p in s.populations)
+        for kind in ('rej', 'smc'):
+            try:
+                try:
+                    ref = run(kind, native.Client(), 1)
+                except Exception as e:
+                    self.bump('sampler_%s_skipped' % kind)
+                    continue
+                self._perturb(case)
+                got = run(kind, ScriptedClient(oracle=case['oracle'], mode=case['client_mode'], num_cores=2, seed=case['noise']),
+                          case['maxp'])
+                self.bump('sampler_%s_compared' % kind)
+                if got != ref:
+                    problems.append('seeded %s run with %d batches in flight on a %s client differs from the sequential native run'
+                                    % (kind, case['maxp'], case['client_mode']))
+                self._perturb(case)
+                if run(kind, native.Client(), 1) != ref:
+                    problems.append('seeded %s run differs when repeated' % kind)
+            except np.linalg.LinAlgError:
+                self.bump('sampler_%s_singular' % kind)
+            finally:
+                elfi.set_client(native.Client())
+        return dict(problems=problems)
+
     def py_check(self, case, out):
         fails = []
+        if out.get('samplers') and out['samplers'].get('problems'):
+            fails.append(('client_independent', '; '.join(out['samplers']['problems'])))
         if not out['sym1_repeat_equal']:
             fails.append(('repeatable', 'second seeded generate on the same model differs (outputs, call order or draws)'))
         s1, s2 = out['sym1'], out['sym2']
